@@ -357,6 +357,41 @@ def run(ctx: Context) -> None:
     ctx.check('R15.4', ok, "the streaming list wrapper yields the generator's items unchanged", it_fi or wg, (it_fi or wg).node,
               construct='_dumpable_iterator.__iter__ -> iter(self.gen)')
 
+    # the shapefile is written where the caller said: the writer gets the target as given (a Path made a string), and the caller's handles
+    # under their own keywords.  pyshp takes the extension off a target itself: a target that was split before loses a second piece of its name
+    # (`cells.v2.shp` written as `cells.shp`) while the .prj file, named here, keeps it
+    wsf = ctx.func(f"{GEO}.write_shapefile")
+    wflow = ctx.flow(wsf)
+    writers_ = [c for c in calls_in(wsf) if (callee(ctx, wsf, c) or '').endswith('shapefile.Writer')]
+    ctx.need('R15.4', len(writers_) == 1, "write_shapefile opens one shapefile.Writer", wsf)
+    tgt_ = writers_[0].args[0] if writers_[0].args else kwarg(writers_[0], 'target')
+
+    def _is_target(e, depth=0):
+        if e is None or depth > 3:
+            return False
+        alts = wflow.alternatives(e) if isinstance(e, ast.Name) else [wflow.canon(e)]
+        if isinstance(e, ast.Name):
+            ok_all = True
+            for d in wflow.defs_of(e):
+                if d.kind == 'param':
+                    ok_all = ok_all and d.name == 'target'
+                elif d.kind == 'assign' and d.value is not None:
+                    ok_all = ok_all and _is_target(d.value, depth + 1)
+                else:
+                    ok_all = False
+            return ok_all and bool(wflow.defs_of(e))
+        if isinstance(e, ast.Call) and len(e.args) == 1 and not e.keywords and (dotted(e.func) in ('str', 'os.fspath', 'os.fsdecode')):
+            return _is_target(e.args[0], depth + 1)
+        if isinstance(e, ast.IfExp):
+            return _is_target(e.body, depth + 1) and _is_target(e.orelse, depth + 1)
+        return False
+    ctx.check('R15.4', _is_target(tgt_), "the shapefile writer is given the caller's target as it is (at most converted from a Path to a string): pyshp names the components after it",
+              wsf, writers_[0], construct=f"shapefile.Writer({norm_text(tgt_) if tgt_ is not None else '?'}, ...) <- {[str(a)[:40] for a in (wflow.alternatives(tgt_) if isinstance(tgt_, ast.Name) else [])][:3]}")
+    for key_ in ('shp', 'shx', 'dbf'):
+        v_ = kwarg(writers_[0], key_)
+        ctx.check('R15.4', v_ is not None and set(wflow.alternatives(v_)) == {('param', key_)}, f"the caller's `{key_}` handle or path goes to the writer's `{key_}`", wsf, writers_[0],
+                  construct=f"{key_}={norm_text(v_) if v_ is not None else 'not passed'}")
+
     # an opened handle handed to write_shapefile is used as it is (typing.IO is an annotation, not a class real files derive from)
     mo = p.functions.get(f"{GEO}._maybe_open")
     ctx.need('R15.4', mo is not None and mo.params, "_maybe_open exists", wg)
